@@ -292,7 +292,16 @@ func bigFlow(fn *ssa.Function, init map[ssa.Value]bigIv, at ssa.Instruction, dep
 		switch callee.Name() {
 		case "SetBytes":
 			s[z] = bigIv{top: true}
-			if sl, ok := args[1].(*ssa.Slice); ok && sl.High != nil {
+			src := args[1]
+			// the bytes may be the single result of a function of the package that cuts them to length itself
+			if hc, isCall := src.(*ssa.Call); isCall {
+				if h := hc.Call.StaticCallee(); h != nil && h.Blocks != nil && h.Pkg == fn.Pkg {
+					if rets := core.Returns(h); len(rets) == 1 && len(rets[0].Results) == 1 {
+						src = core.RetOperand(rets[0], 0)
+					}
+				}
+			}
+			if sl, ok := src.(*ssa.Slice); ok && sl.High != nil {
 				if k, isC := core.ConstInt(sl.High); isC && k >= 0 && k <= 64 {
 					lowOK := sl.Low == nil
 					if sl.Low != nil {
